@@ -137,6 +137,19 @@ def replay(pid, path):
             return 1
         print("does not reproduce on the current tree")
         return 0
+    if cex.get("mode") == "pinned":
+        from .. import enga
+        from ..props import pinned_probe
+
+        enga.init()
+        bad = [r for r in pinned_probe.run() + pinned_probe.run_adjoint() + pinned_probe.run_nested() + pinned_probe.run_complex() if r["key"] == cex.get("key") and r["status"] == "violation"]
+        for r in bad:
+            print("replay %s: %s" % (r["key"], r["detail"]))
+        if bad:
+            print("VIOLATION property=%s replay=%s" % (pid, path))
+            return 1
+        print("does not reproduce on the current tree")
+        return 0
     if cex.get("mode") != "crosshair":
         return None
     viol, info = chrun.replay(cex["module"], cex["func"], cex["args"])
